@@ -358,10 +358,10 @@ Proof. apply existsb_app. Qed.
 
 (* what a piece of the run did to the control part of the state *)
 Record ran (s s' : st) (lg : list lsh) (ex : list exc) (fc : bool) : Prop := {
-  r_log : map shape (log s') = map shape (log s) ++ lg;
-  r_excs : excs s' = excs s ++ ex;
-  r_force : force s' = force s || fc;
-  r_calls : calls (tr s') = calls (tr s) }.
+  rn_log : map shape (log s') = map shape (log s) ++ lg;
+  rn_excs : excs s' = excs s ++ ex;
+  rn_force : force s' = force s || fc;
+  rn_calls : calls (tr s') = calls (tr s) }.
 
 Lemma ran_refl s : ran s s [] [] false.
 Proof. constructor; rewrite ?app_nil_r, ?orb_false_r; reflexivity. Qed.
@@ -862,6 +862,65 @@ Proof.
   - rewrite table_last_resort. eexists; reflexivity.
 Qed.
 
+
+(* ---------- the handler table implements the standard mapping ---------- *)
+Lemma table_not_sub :
+  forallb (fun h => match h_cls h with CSub _ _ => false | _ => true end) generated_handlers = true.
+Proof. vm_compute. reflexivity. Qed.
+
+Definition table_outcome (c : cls) : option outcome :=
+  match find (fun h => subclass c (h_cls h)) generated_handlers with
+  | Some h => h_out h
+  | None => last_resort
+  end.
+
+Lemma find_ext_in {A} (f g : A -> bool) l : (forall x, In x l -> f x = g x) -> find f l = find g l.
+Proof.
+  induction l as [|x r IH]; intros H; simpl; [reflexivity|].
+  rewrite (H x (or_introl eq_refl)), IH; [reflexivity|]. intros y Hy. apply H. right; exact Hy.
+Qed.
+
+Lemma subclass_sub p k d : subclass (CSub p k) d = cls_eqb d (CSub p k) || subclass p d.
+Proof. reflexivity. Qed.
+
+Lemma table_outcome_spec c : table_outcome c = Some (standard_outcome c).
+Proof.
+  induction c as [| | | | | | | | | | | | |p IH k]; try (vm_compute; reflexivity).
+  assert (T : table_outcome (CSub p k) = table_outcome p).
+  { unfold table_outcome. erewrite find_ext_in; [reflexivity|]. intros h Hin. cbv beta.
+    rewrite subclass_sub. pose proof table_not_sub as N. rewrite forallb_forall in N. specialize (N h Hin).
+    destruct (h_cls h); try discriminate; reflexivity. }
+  rewrite T, IH. unfold standard_outcome. rewrite !subclass_sub. reflexivity.
+Qed.
+
+Lemma find_map {A B} (f : B -> bool) (g : A -> B) l : find f (map g l) = option_map g (find (fun a => f (g a)) l).
+Proof. induction l as [|x r IH]; simpl; [reflexivity|]. destruct (f (g x)); [reflexivity | exact IH]. Qed.
+
+(* what the handler list does with an exception is what the statement says it stands for *)
+Lemma lookup_handlers p e :
+  match lookup (handlers p) e with Some h => h_out h | None => last_resort end = Some (outcome_of p e).
+Proof.
+  unfold lookup, handlers, outcome_of, user_claim. rewrite find_app, find_map. cbn [user_handler h_cls].
+  destruct (find (fun a => isinstance e (fst a)) (p_handlers p)) as [co|]; cbn [option_map]; [reflexivity|].
+  exact (table_outcome_spec (cls_of e)).
+Qed.
+
+Lemma existsb_find {A} (f : A -> bool) l : existsb f l = match find f l with Some _ => true | None => false end.
+Proof. induction l as [|x r IH]; simpl; [reflexivity|]. destruct (f x); [reflexivity | exact IH]. Qed.
+
+Lemma generated_claims e : existsb (fun h => isinstance e (h_cls h)) generated_handlers = isinstance e CException.
+Proof.
+  apply eq_true_iff_eq. rewrite existsb_exists. split.
+  - intros (h & Hin & Hh). pose proof table_within_Exception as T. rewrite forallb_forall in T.
+    eapply subclass_trans; [exact Hh | exact (T h Hin)].
+  - intros H. destruct catch_all_in as (h & Hin & Hc). exists h. split; [exact Hin|]. rewrite Hc. exact H.
+Qed.
+
+Lemma claims_handlers p e : claims (handlers p) e = claimed p e.
+Proof.
+  unfold claims, handlers, claimed, user_claim. rewrite existsb_app, generated_claims, existsb_find, find_map.
+  cbn [user_handler h_cls]. destruct (find (fun a => isinstance e (fst a)) (p_handlers p)); reflexivity.
+Qed.
 
 (* the bracket, at the level of the model's trace: the calls on the result are startTest, one
    outcome, stopTest; no fuel problem; the cleanup stack is empty *)
